@@ -388,8 +388,10 @@ class Outcome:
 
 
 def outcomes(stmts, scope: Scope | None = None, env: dict | None = None, atom=None, expand: bool = True,
-             limit: int = 2000, depth: int = 0, opaque=()) -> list[Outcome]:
-    """Enumerate syntactic paths with flow-sensitive resolution.  Names in `opaque` are never substituted."""
+             limit: int = 2000, depth: int = 0, opaque=(), fold_ifs: bool = True) -> list[Outcome]:
+    """Enumerate syntactic paths with flow-sensitive resolution.  Names in `opaque` are never substituted.  With `fold_ifs`, an
+    `if c: x = A` / `else: x = B` whose condition nothing decides is one path with x = A if c else B (rules that count per path
+    switch it off)."""
     from .paths import eval_bool
 
     done: list[Outcome] = []
@@ -413,7 +415,7 @@ def outcomes(stmts, scope: Scope | None = None, env: dict | None = None, atom=No
         if isinstance(s, ast.If):
             test = res(s.test, env, conds)
             v = eval_bool(test, atom) if atom is not None else None
-            if v is None and len(s.body) == 1 and len(s.orelse) == 1 and all(
+            if fold_ifs and v is None and len(s.body) == 1 and len(s.orelse) == 1 and all(
                     isinstance(b_, ast.Assign) and len(b_.targets) == 1 and isinstance(b_.targets[0], ast.Name) for b_ in (s.body[0], s.orelse[0])) \
                     and s.body[0].targets[0].id == s.orelse[0].targets[0].id and not any(isinstance(x, ast.NamedExpr) for x in ast.walk(s)):
                 # `if c: x = A` / `else: x = B` under a condition nothing decides: one path on which x = A if c else B
